@@ -88,6 +88,7 @@ class C13(Monitor):
         n = 0
         settings = dict(clear=rnd.random() < 0.5, shrink=rnd.random() < 0.5) if rnd.random() < 0.8 else \
             dict(clear=rnd.choice(RAW_BOOLS), shrink=rnd.choice(RAW_BOOLS))
+        settings["debug"] = rnd.random() < 0.33
         first = dict(settings)
         for _ in range(rnd.randint(8, 45)):
             t = rnd.random()
@@ -162,6 +163,8 @@ class C13(Monitor):
             stats["exhaustive_of_%d" % case["small_total"]] += 1
         p = Plugin(case["settings"])
         p.pm.take()
+        if case["settings"].get("debug"):
+            stats["c13_cases_with_debug_logging"] += 1
         model = []
         active = False
         clear = setting_bool(case["settings"].get("clear"))
@@ -178,7 +181,11 @@ class C13(Monitor):
             expect_change = None
             if st[0] == "api":
                 cmd, data, anon = st[1], st[2], st[3]
-                resp = p.api(cmd, data, anon=anon)
+                try:
+                    resp = p.api(cmd, data, anon=anon)
+                except Exception as exc:  # noqa: B902
+                    bad(i, st, "request-raised", repr(exc))
+                    break
                 stats["c13_requests"] += 1
                 if anon:
                     want = ("reject", 403)
@@ -429,10 +436,18 @@ class C12(Monitor):
                 shapes[rid] = new if rnd.random() < 0.5 else shapes[rid]    # generator's belief only; the oracle reads the real list
             elif t < 0.8 and shapes:
                 steps.append(["api", "deleteExcludeRegion", dict(id=rnd.choice(sorted(shapes)))])
-            elif t < 0.92:
+            elif t < 0.90:
                 n += 1
                 shapes["r%d" % n] = rand_shape(rnd)
                 steps.append(["api", "addExcludeRegion", payload_of(shapes["r%d" % n], "r%d" % n)])
+            elif t < 0.92 and shapes:
+                # an add that carries the id of an existing region (a retried request): refused, whatever its geometry
+                rid = rnd.choice(sorted(shapes))
+                new = tweak(rnd, shapes[rid])
+                steps.append(["api", "addExcludeRegion", payload_of(new, rid), new])
+            elif t < 0.935:
+                # exclusion switched off / on by the file: the region list is protected all the same
+                steps.append(["at", "ExcludeRegion", rnd.choice(["off", "disable", "on", "off"])])
             elif t < 0.95:
                 steps.append(["event", rnd.choice(["PrintPaused", "PrintResumed"])])
             elif t < 0.975:
@@ -446,6 +461,15 @@ class C12(Monitor):
                 steps.append(["event", rnd.choice(EV_END)])
                 steps.append(["event", EV_START])
         return dict(settings=dict(shrink=shrink, clear=clear), steps=steps)
+
+    @staticmethod
+    def point_in_list(p, x, y):
+        """Is the point excluded by the region list as it stands - through the real isPointExcluded while exclusion is enabled,
+        through the real containsPoint of the listed regions while an @-command has it switched off (the list is what the
+        property protects; it takes effect again with the next enable)."""
+        if p.state.isExclusionEnabled():
+            return bool(p.state.isPointExcluded(x, y))
+        return any(r.containsPoint(x, y) for r in p.state.excludedRegions)
 
     @staticmethod
     def shapes_of(regions):
@@ -481,6 +505,10 @@ class C12(Monitor):
                 shrink = setting_bool(st[1].get("shrink"))
                 stats["c12_settings_saves"] += 1
                 continue
+            if st[0] == "at":
+                p.at(st[1], st[2])
+                stats["c12_at_commands"] += 1
+                continue
             cmd, data = st[1], st[2]
             before = p.regions()
             old_shapes = self.shapes_of(before)
@@ -489,7 +517,7 @@ class C12(Monitor):
                                      else ("circ", [data["cx"], data["cy"], data["r"]]))
                 probes = probes[-1500:]
             guarded = active and not shrink
-            inside_before = [p.state.isPointExcluded(x, y) for (x, y) in probes] if guarded else None
+            inside_before = [self.point_in_list(p, x, y) for (x, y) in probes] if guarded else None
             resp = p.api(cmd, data)
             after = p.regions()
             stats["c12_requests"] += 1
@@ -500,6 +528,10 @@ class C12(Monitor):
                 stats["c12_deletes"] += 1
                 if not (isinstance(resp, tuple) and resp[1] == 409):
                     bad(i, st, "delete-accepted-during-print", "response %r" % (resp,))
+            if cmd == "addExcludeRegion" and any(r["id"] == data.get("id") for r in before):
+                stats["c12_adds_with_existing_id"] += 1
+                if not (isinstance(resp, tuple) and resp[1] == 409):
+                    bad(i, st, "add-with-existing-id-accepted", "response %r" % (resp,))
             if isinstance(resp, tuple) and resp[1] == 409:
                 refused += (cmd == "updateExcludeRegion")
                 stats["c12_refused"] += 1
@@ -513,7 +545,7 @@ class C12(Monitor):
                 if not inside_before[k]:
                     continue
                 stats["c12_probe_points_checked"] += 1
-                if p.state.isPointExcluded(x, y):
+                if self.point_in_list(p, x, y):
                     continue
                 # flipped (as observed through the real isPointExcluded): borderline only when exact arithmetic puts the point
                 # within 1e-9 relative of a border of an old or a new region, where float rounding may decide either way
